@@ -421,7 +421,6 @@ func TestVerifC01Programs(t *testing.T) {
 	rep := kit.NewReport("C01", "programs")
 	defer rep.Write()
 	rep.SetRule("seeded operation programs (Append batches 1..8, replicated AppendMessageSet in chunks, Truncate at 7 position classes, Close+New, SetHighWatermark) over 7 MaxSegmentBytes values; after every step NewestOffset/OldestOffset, full read-back from every start offset (all when <=48 messages) committed+uncommitted, digest stability and a raw parse of the .log files are compared with a reference model; non-trivial = program rolled a segment and truncated or reopened; distinct = program text + segment size")
-	rep.Assume("nil header *values* are not generated: they cannot arrive through the gRPC/NATS API (protobuf bytes decode to empty, not nil)")
 	rep.Assume("truncation offsets are > HW, as in the replication protocol (a follower never truncates committed data)")
 	root := kit.NewRNG(kit.Mix(kit.Seed(), 0xC01))
 	nprog := kit.Scale(260, 6000)
